@@ -807,3 +807,50 @@ def sortedLE : List Nat → Bool
   | _ => true
 
 end ShVerif.C15
+
+namespace ShVerif.C15
+
+mutual
+  /-- no recovered position anywhere (the derived `pe` annotations are not looked at) -/
+  def noRecovered : Val → Bool
+    | .pos p => decide (p ≠ Pos.recovered)
+    | .ptr v => noRecovered v
+    | .iface v => noRecovered v
+    | .slice elems => noRecoveredL elems
+    | .struct _ _ fields => noRecoveredF fields
+    | _ => true
+  def noRecoveredL : List Val → Bool
+    | [] => true
+    | v :: rest => noRecovered v && noRecoveredL rest
+  def noRecoveredF : List (String × Val) → Bool
+    | [] => true
+    | (_, v) :: rest => noRecovered v && noRecoveredF rest
+end
+
+end ShVerif.C15
+
+namespace ShVerif.C15
+
+mutual
+  /-- empty-but-non-nil slices become nil, annotations are forgotten; positions are kept -/
+  def nilEmpty : Val → Val
+    | .ptr v => .ptr (nilEmpty v)
+    | .iface v => .iface (nilEmpty v)
+    | .slice [] => .snil
+    | .slice (e :: elems) => .slice (nilEmpty e :: nilEmptyL elems)
+    | .struct name _ fields => .struct name none (nilEmptyF fields)
+    | v => v
+  def nilEmptyL : List Val → List Val
+    | [] => []
+    | v :: rest => nilEmpty v :: nilEmptyL rest
+  def nilEmptyF : List (String × Val) → List (String × Val)
+    | [] => []
+    | (k, v) :: rest => (k, nilEmpty v) :: nilEmptyF rest
+end
+
+/-- `Pos()`/`End()` cannot tell a nil slice from an empty one (they use `len` and `range` only) -/
+def annSliceBlind (ann : Ann) : Prop :=
+  ∀ (name : String) (fs : List (String × Val)),
+    peKey (ann name (nilEmptyF fs)) = peKey (ann name (forgetF fs))
+
+end ShVerif.C15
